@@ -137,9 +137,11 @@ def _update_tick_model(run, fn, label, init_test, upd_init):
         rb = rot[0]
         bb = bmc[0]
         # control-equivalent: each dominates / is reached from the other without an intervening branch that can skip it
-        ce = cfg.dominates(fn, rb, bb) and not cfg.success_reach(fn, rb, cut_blocks=[bb]) if False else (cfg.dominates(fn, rb, bb) and bb in cfg.reach(fn, rb))
-        # stronger: every path from the rotation to a return passes the bitmap update
-        ret_without = any(fn.blocks[b]["t"]["k"] == "ret" for b in cfg.reach(fn, rb, cut_blocks=[bb]))
+        # (the two touch disjoint bytes - header bitmap vs slot data - so either order is the same update)
+        first, second = (rb, bb) if cfg.dominates(fn, rb, bb) else (bb, rb)
+        ce = cfg.dominates(fn, first, second) and second in cfg.reach(fn, first)
+        # stronger: every path from the first of the two to a return passes the other
+        ret_without = any(fn.blocks[b]["t"]["k"] == "ret" for b in cfg.reach(fn, first, cut_blocks=[second]))
         run.check("R2", "paired:%s@%s" % (name, label), ce and not ret_without, "%s: the %s rotation can happen without the matching bitmap update" % (fn.path, "right" if name == "init" else "left"),
                   loc=fn.loc(rot[1]["l"]), detail="rotation => bitmap %s on every path" % ("set" if name == "init" else "clear"))
         # amount 112
@@ -285,19 +287,26 @@ def R3_byte_offset(run):
                       "%s updates the bitmap with %s" % (path, [e[1] for e in ev]), loc=fn.loc(), detail="bitmap %s (1 << offset) of the array's own bitmap" % ("|=" if kind == "set" else "&= !"))
         run.check("R3", "bitmap-stored@" + label, len(ev) == 2, "%s does not store the updated bitmap twice (set, clear) into %s" % (path, "the tick_bitmap field" if label == "pinocchio" else "data[36..52]"),
                   loc=fn.loc(), detail="bitmap written back")
-    fn = facts.need_fn("state::dynamic_tick_array::DynamicTickArrayLoader::is_initialized_tick")
-    pv = prov_of(fn)
+    # read with is_initialized_tick spliced into the search: the one bit test of the loop is (bitmap & (1 << cursor)) != 0 on the
+    # array's own bitmap, with the cursor the in-range test and the returned index use
+    fn = facts.need_fn(DYN + "::get_next_init_tick_index")
+    run.touch(fn)
     ok = False
-    for bi, bb in enumerate(fn.blocks):
-        if bb["t"]["k"] == "ret":
-            r = strip(pv.local(0, bi, len(bb["s"])))
-            if r[0] == "bin" and r[1] == "Ne" and const_val(r[3]) == 0:
-                m = strip(r[2])
-                if m[0] == "bin" and m[1] == "BitAnd":
-                    for (x, y) in ((strip(m[2]), strip(m[3])), (strip(m[3]), strip(m[2]))):
-                        if is_param(x, "tick_bitmap") and y[0] == "bin" and y[1] in ("Shl", "ShlUnchecked") and const_val(y[2]) == 1 and is_param(y[3], "tick_offset"):
-                            ok = True
-    run.check("R3", "is_initialized_tick", ok, "is_initialized_tick is not (bitmap & (1 << offset)) != 0", loc=fn.loc(), detail="(bitmap & (1 << i)) != 0")
+    tests = []
+    for at in A.atoms(fn, {}, cut=True):
+        c = at.cond()
+        if c and c[0] in ("Ne", "Eq") and const_val(c[2]) == 0:
+            m = strip(c[1])
+            if m[0] == "bin" and m[1] == "BitAnd":
+                tests.append((at, m))
+    if len(tests) == 1:
+        at, m = tests[0]
+        for (x, y) in ((strip(m[2]), strip(m[3])), (strip(m[3]), strip(m[2]))):
+            if mentions(x, lambda t: t[0] == "call" and t[1].endswith("::tick_bitmap")) and y[0] == "bin" and y[1] in ("Shl", "ShlUnchecked") and const_val(y[2]) == 1 and strip(y[3])[0] == "var":
+                cur = strip(y[3])
+                rng = [a2 for a2 in A.atoms(fn, {}, cut=True) if mentions(a2.term, lambda t: t[0] == "call" and t[1].endswith("::contains")) and mentions(a2.term, lambda t: t == cur)]
+                ok = len(rng) == 1
+    run.check("R3", "is_initialized_tick", ok, "the dynamic array's search does not test (bitmap & (1 << cursor)) != 0 on its own bitmap with the cursor of its range test", loc=fn.loc(), detail="(bitmap & (1 << i)) != 0")
 
 
 def R4_size_and_rent(run):
